@@ -7,7 +7,7 @@ IDS=${*:-$(for d in seeded/*; do grep -q "\"out_of_scope\": true" $d/meta.json |
 OUTJSON=evidence/selftest_sensitivity.json
 RES=""
 for id in $IDS; do
-  PROP=$(/venv/bin/python -c "import json;print(json.load(open('seeded/$id/meta.json'))['property'])")
+  PROP=$(/venv/bin/python -c "import json;m=json.load(open('seeded/$id/meta.json'));print(m.get('check_property') or m['property'])")
   # a few changes only show in the thorough tier (e.g. a position at the documented table limit): meta.json says so
   EXTRA=$(/venv/bin/python -c "import json;print(json.load(open('seeded/$id/meta.json')).get('check_args',''))")
   S=$(mktemp -d /dev/shm/sens.XXXX)
